@@ -144,3 +144,114 @@ func runC27Extra9(c *core.Check) {
 		c.Undecided(rule, "internal/promql/sort-calls", 0, fmt.Sprintf("expected at least the two quantile sorts, found %d", n))
 	}
 }
+
+// ---- C27-R14/R15 (F31–F33) --------------------------------------------------------------
+
+func init() {
+	Extend("C27", runC27Extra9b,
+		Mutant{Name: "revert-F31-present-over-time-inverted", File: "internal/promql/functions.go", Rule: "C27-R15",
+			Old: "				if p || t-ev.r < lastSeen { // a point exists inside the window (t-r, t]", New: "				if p || lastSeen < t-ev.r {"},
+		Mutant{Name: "revert-F32-stdvar-of-nothing-is-zero", File: "internal/promql/functions.go", Rule: "C27-R14",
+			Old: "		if cnt == 0 {\n			d0[i] = math.NaN() // every series is missing, no point\n			continue\n		}\n", New: ""},
+		Mutant{Name: "revert-F33-group-of-nothing-is-one", File: "internal/promql/functions.go", Rule: "C27-R14",
+			Old: "		res := math.NaN() // no point where every series is missing\n		for _, d := range ds {\n			if !math.IsNaN((*d.Values)[i]) {\n				res = 1\n				break\n			}\n		}\n		d0[i] = res", New: "		d0[i] = 1"})
+}
+
+// c27ReachesNaN reports whether v can be the result of math.NaN() (through phis).
+func c27ReachesNaN(v ssa.Value, seen map[ssa.Value]bool) bool {
+	if v == nil || seen[v] {
+		return false
+	}
+	seen[v] = true
+	switch x := v.(type) {
+	case *ssa.Call:
+		return core.CalleeName(&x.Call) == "math.NaN"
+	case *ssa.Phi:
+		for _, e := range x.Edges {
+			if c27ReachesNaN(e, seen) {
+				return true
+			}
+		}
+	}
+	return false
+}
+
+func runC27Extra9b(c *core.Check) {
+	c.Decides += " R14 every per-timestamp aggregate kernel (sum, min, max, avg, stdvar, quantile, group; not count, whose value for an all-missing group is 0 by its own definition) has the all-missing outcome: some store into the result row can store math.NaN() (a kernel that only ever writes numbers invents a point where every series is missing); R15 present_over_time writes 1 for an absent point only under (t - range < last seen), i.e. while the last present point is inside the window."
+	const r14 = "C27-R14"
+	c.Rule(r14, "K7 provenance", 7, "each aggregate kernel contains a store into *ds[0].Values whose value can be math.NaN()")
+	for _, name := range append(append([]string{}, c27Kernels...), "funcGroup") {
+		if name == "funcCount" {
+			// the number of present points of an all-missing group is 0 by count's own definition;
+			// whether 0 or "no point" is wanted there is not something the property text settles
+			continue
+		}
+		fn := need(c, r14, c27pkg+"."+name)
+		if fn == nil {
+			continue
+		}
+		stores, nanStore := 0, false
+		for _, b := range fn.Blocks {
+			for _, in := range b.Instrs {
+				st, ok := in.(*ssa.Store)
+				if !ok {
+					continue
+				}
+				if _, isIA := st.Addr.(*ssa.IndexAddr); !isIA {
+					continue
+				}
+				stores++
+				if c27ReachesNaN(st.Val, map[ssa.Value]bool{}) {
+					nanStore = true
+				}
+			}
+		}
+		if stores == 0 {
+			c.Undecided(r14, c27pkg+"."+name+"/result-stores", fn.Pos(), "no store into the result row found")
+			continue
+		}
+		c.Require(nanStore, r14, c27pkg+"."+name+"/all-missing-outcome", fn.Pos(), "kernel can yield 'no point'",
+			name+" never stores math.NaN() into the result row: at a timestamp where every series of the group is missing it still produces a number, i.e. a point that no input has")
+	}
+	const r15 = "C27-R15"
+	c.Rule(r15, "K1 guard dominance", 1, "in funcPresentOverTime the store of 1 is guarded by `present || (t - range < lastSeen)`")
+	if fn := need(c, r15, c27pkg+".funcPresentOverTime"); fn != nil {
+		n := 0
+		for _, b := range fn.Blocks {
+			for _, in := range b.Instrs {
+				st, ok := in.(*ssa.Store)
+				if !ok || !isFloatOne(st.Val) {
+					continue
+				}
+				n++
+				good := false
+				for _, g := range core.Facts(b) {
+					for _, l := range g.Alts {
+						if l.Op.String() != "<" || !l.Pol {
+							continue
+						}
+						// window start (a subtraction) on the left, the last-seen phi on the right
+						_, subLeft := l.X.(*ssa.BinOp)
+						_, phiRight := l.Y.(*ssa.Phi)
+						if subLeft && phiRight {
+							good = true
+						}
+					}
+				}
+				c.Require(good, r15, fmt.Sprintf("%s.funcPresentOverTime/store-1#%d", c27pkg, n), st.Pos(), "absent point counts as present only inside the window",
+					"present_over_time writes 1 under "+core.FactsString(b)+", which does not contain `t - range < lastSeen`: the function reports a point where the window holds none (also before a series' first point) and none where it holds one")
+			}
+		}
+		if n == 0 {
+			c.Undecided(r15, c27pkg+".funcPresentOverTime/store-1", fn.Pos(), "no store of 1 found")
+		}
+	}
+}
+
+func isFloatOne(v ssa.Value) bool {
+	k, ok := v.(*ssa.Const)
+	if !ok || k.Value == nil {
+		return false
+	}
+	return k.Value.ExactString() == "1"
+}
